@@ -4,6 +4,11 @@
 // virtual time.  After every step the status code, the GET payload (label set, startsAt,
 // endsAt, updatedAt, status, receivers), the stored alerts (provider.Get: start, end,
 // timeout flag, updatedAt) and what GC deleted are compared with what TLC printed.
+// Equal receive stamps are replayed as printed: a body that holds one label set several
+// times is ONE request; two requests at one model instant are two calls without the
+// virtual clock moving (Gen_Alerts PostDup / PostSame, Gen_AlertsDup).  Outcomes in which
+// the earlier of two same-stamp submissions overwrote the later one are violations where
+// the statement decides (class "stamp-order"), drift where it does not.
 package c13
 
 import (
